@@ -768,6 +768,80 @@ def _oracle(doc, case, src):
     return errs[:12]
 
 
+def _nf_fragment(items):
+    """is the recorded stream the print of a list of syntax trees satisfying the hypotheses of C07_nf_parse (text, plain commands,
+    environments begin ... end: returns 1) or of C07_nf_parse_sections (the same plus sectioning units and \\par inside them,
+    mathematics flag off everywhere: returns 2)?  Then the theorem says what the tree must be.  0 otherwise."""
+    pos = 0
+    n = len(items)
+    used = {'sec': False, 'mm': False}
+
+    def level(w):
+        return 1001 if w[0] == 1 else w[1][2]
+
+    def depth(w):
+        return w[1] if w[0] == 1 else w[1][3]
+
+    def mm(w):
+        return w[4] if w[0] == 1 else w[1][17]
+
+    def fits(ph, w, sec):
+        if ph is None:
+            return True
+        if sec:
+            return level(w) > ph[2]
+        if level(w) == 101 or level(w) < ph[2]:
+            return False
+        if w[0] == 0 and w[1][4] == 2 and w[1][9] == ph[9]:
+            return False
+        if ph[2] > -1000000 and depth(w) < ph[3]:
+            return False
+        return True
+
+    def item(ph, sec):
+        nonlocal pos
+        w = items[pos]
+        if not fits(ph, w, sec):
+            return False
+        if mm(w):
+            used['mm'] = True
+        if w[0] == 1 or w[1][0] in (K_LEAF, K_TEXT):
+            pos += 1
+            return True
+        fs = w[1]
+        if fs[0] == K_SEC and not w[3]:
+            used['sec'] = True
+            pos += 1
+            while pos < n and level(items[pos]) > fs[2]:
+                if not item(fs, True):
+                    return False
+            return True
+        if fs[0] != K_ENV or fs[4] == 2 or fs[6] or w[3]:
+            return False
+        pos += 1
+        while pos < n:
+            e = items[pos]
+            if e[0] == 0 and e[1][4] == 2 and e[1][9] == fs[9]:
+                if e[3] or e[1][2] == 101 or e[1][2] < fs[2]:
+                    return False
+                if mm(e):
+                    used['mm'] = True
+                pos += 1
+                return True
+            if not item(fs, False):
+                return False
+        return False
+    try:
+        while pos < n:
+            if not item(None, False):
+                return 0
+    except RecursionError:
+        return 0
+    if used['sec']:
+        return 0 if used['mm'] else 2
+    return 1
+
+
 def _cache_dir(main_pid):
     import core
     return os.path.join(core.BUILD, ID, 'streams-%d' % main_pid)
@@ -816,7 +890,8 @@ def _observe(case):
     for w in impl:
         dep(w, 0)
     inv = sorted(names.t, key=names.t.get)
-    obs = ['ok', [_canon(w) for w in impl], errs, sorted(set(unknown)), dict(items=len(items), depth=depth, names=inv)]
+    obs = ['ok', [_canon(w) for w in impl], errs, sorted(set(unknown)),
+           dict(items=len(items), depth=depth, names=inv, nf=_nf_fragment(items))]
     return obs, [0, subs, parname, items, impl]
 
 
@@ -961,11 +1036,13 @@ def judge(case, io, mo):
             return dict(violation=True, key='C07:words', expected='', what='running text in items that the digest drops: %s' % _atoms_str(mo[2])[:200])
         # the hypotheses of the theorems hold on this real stream (M1: dropped items carry no words -- just checked; M2: item_ok_b,
         # no sectioning event; table: neutral_b)
-        if mo[8] != 0 or mo[9] != 1 or mo[10] != 1:
+        if mo[8] != 0 or mo[9] != 1 or mo[10] != 1 or mo[11] != 1:
             return dict(violation=False, key='C07:hypothesis',
                         what='a hypothesis of the theorems does not hold on the stream of a well-formed document: sectioning events=%s '
-                             'item_ok=%s table neutral=%s' % (mo[8], mo[9], mo[10]))
+                             'item_ok=%s table neutral=%s dropped items without visible node=%s' % (mo[8], mo[9], mo[10], mo[11]))
     # 4. the theorems' instances on this stream (M1: words preserved when the dropped items carry none)
+    if mo[11] == 1 and mo[12] != 1:
+        return dict(violation=False, key='C07:M1-instance', what='the visible nodes of digest ts are not those of ts in order (contradicts nodes_once)')
     if not mo[2] and mo[3] != mo[4]:
         return dict(violation=False, key='C07:M1-instance', what='words(flatten(digest ts)) <> words ts on the Model (contradicts digest_flatten)')
     return None
@@ -987,6 +1064,10 @@ def tags(case, io):
             t.append('tree-depth=%d' % min(io[4]['depth'], 12))
             if io[3]:
                 t.append('unmodelled-class')
+            if io[4].get('nf') == 1:
+                t.append('nf-fragment (hypotheses of C07_nf_parse hold)')
+            if io[4].get('nf') == 2:
+                t.append('nf-sections-fragment (hypotheses of C07_nf_parse_sections hold)')
     return t
 
 
